@@ -1006,7 +1006,7 @@ def c20(W, replay=None):
         raise Infra("TLSTrace judged %s scenarios, driver ran %d" % (v["fired"].get("scenarios"), len(scen)))
     return judge("C20", W, [v], index, traces=len(scen), samples=[{"scenario": scen[0], "recorded_events": sample_events_at(trace, 3)}],
                  assumptions=["real handshakes through the HTTP client the service builds (NewHTTPClient) against loopback servers certified by CA1 / CA2; system roots trust neither",
-                              "refresh interval 30 ms of real time; after a rewrite the driver polls up to 60 intervals for the observation to change before judging"])
+                              "refresh interval 30 ms of real time; after a rewrite the driver polls up to 200 intervals for the observation to change before judging"])
 
 
 # ---------------------------------------------------------------------------------------------
